@@ -607,7 +607,30 @@ impl CommandHub {
                                         self.handle_worker_response(worker_id, response);
                                     }
                                 }
-                                WorkerResult::CloseSession => self.handle_worker_close(&token),
+                                WorkerResult::CloseSession => {
+                                    self.handle_worker_close(&token);
+                                    // What this worker still owed an answer to will never
+                                    // be answered. Tell the waiting tasks, or a task without
+                                    // deadline (soft stop, load state) waits for ever and
+                                    // its client never hears back. Request ids read
+                                    // `<name>-<worker id>-<task id>-<request id>`.
+                                    let wanted = worker_id.to_string();
+                                    let orphaned: Vec<String> = self
+                                        .in_flight
+                                        .keys()
+                                        .filter(|id| id.rsplitn(4, '-').nth(2) == Some(wanted.as_str()))
+                                        .cloned()
+                                        .collect();
+                                    for id in orphaned {
+                                        self.handle_worker_response(
+                                            worker_id,
+                                            WorkerResponse::error(
+                                                id,
+                                                "the worker closed its channel before answering",
+                                            ),
+                                        );
+                                    }
+                                }
                             }
                         }
                     }
